@@ -66,7 +66,14 @@ def _worker(dates):
     return out
 
 
-def _check_date(e, out):
+def compose(e):
+    """-> dict with the facts pass and the closed forms f_X(w, ...) of the four employee contributions"""
+    out = {"items": {}, "solver_s": 0.0}
+    res = _check_date(e, out, only_compose=True)
+    return res
+
+
+def _check_date(e, out, only_compose=False):
     d = str(e.date)
     T = _targets(e)
     sums = [n for n in e.functions if "midijob_sum_arbeitnehmer_arbeitgeber_m" in n]
@@ -115,6 +122,21 @@ def _check_date(e, out):
     mj = df.var("minijob_grenze") if "minijob_grenze" in dag else None
     if mj is not None and "minijob_grenze" in df.consts:
         mj = df.consts["minijob_grenze"]
+    if only_compose:
+        forms = {}
+        for b in BRANCHES:
+            tgt = f"{b}_beitr_arbeitnehmer_m"
+            if tgt in dag:
+                try:
+                    forms[b] = df.closed_form(tgt, stop=stop)
+                except (KeyError, symx.Unsupported):
+                    pass
+        ceils = {}
+        for b in BRANCHES:
+            cn = "_ges_rentenv_beitr_bemess_grenze_m" if b in ("ges_rentenv", "arbeitsl_v") else "_ges_krankenv_beitr_bemess_grenze_m"
+            if cn in dag:
+                ceils[b] = df.closed_form(cn, stop=stop) if (cn in df.result_terms and cn not in stop) else df.var(cn)
+        return {"df": df, "w": w, "forms": forms, "base": [*shared, *regular], "ceil": ceils, "stop": stop, "wage_dep": wage_dep}
     for b in BRANCHES:
         tgt = f"{b}_beitr_arbeitnehmer_m"
         if tgt not in dag:
